@@ -279,19 +279,23 @@ def run(ctx, rep, model=True):
         spec = make_spec(ctx.rng, i) if i % 2 == 0 else mixed_spec(ctx.rng, i // 2)
         # payload: density small ints, volFrac dyadic fractions in [0,1], one == 1
         spec["data"] = {"mode": "pestle", "seed": ctx.rng.randrange(1 << 30)}
+        D = "density"
+        if i % 4 == 3:
+            # another field whose name holds "frac", stored ahead of the volume fraction
+            D = spec["fields"][0] = ["mixture_fraction", "mass_fractions"][(i // 4) % 2]; rep.count("another-frac-field-ahead-of-volFrac")
         path = ctx.newdir("c09_")
         truth = plotgen.materialize(spec, path)
         nlev = len(spec["levels"])
-        combos = [("one", False, None), ("density", False, None), ("density", True, None)]
+        combos = [("one", False, None), (D, False, None), (D, True, None)]
         for L in range(nlev):
-            combos.append((["density", "one"][L % 2], L % 2 == 1, L))
+            combos.append(([D, "one"][L % 2], L % 2 == 1, L))
         for j, (f, vf, lim) in enumerate(combos):
             run_case(ctx, rep, spec, f, vf, lim, model, path, truth, cli=(j in (1, 3, 4) and i % 2 == 0),
                      start=[None, pools.order_reversed][j % 2], finish=[None, "reversed", "rot1"][(i + j) % 3])
         if nlev >= 2 and i % 2 == 0:
             # one reader object for a sequence of calls with different limits and fields
             pck = [None, []]
-            seq = [("density", False, L) for L in range(nlev)] + [("one", False, None), ("density", True, 0), ("density", False, nlev - 1)]
+            seq = [(D, False, L) for L in range(nlev)] + [("one", False, None), (D, True, 0), (D, False, nlev - 1)]
             ctx.rng.shuffle(seq)
             for f, vf, lim in seq:
                 run_case(ctx, rep, spec, f, vf, lim, model and lim is None, path, truth, pck=pck)
@@ -300,7 +304,7 @@ def run(ctx, rep, model=True):
             spec2 = dict(spec, data=dict(spec["data"], covered_fill=["nan", "mix", "inf"][i % 3]))
             path2 = ctx.newdir("c09n_")
             truth2 = plotgen.materialize(spec2, path2)
-            for j, (f, vf, lim) in enumerate([("density", False, None), ("density", True, nlev - 1), ("one", False, None)]):
+            for j, (f, vf, lim) in enumerate([(D, False, None), (D, True, nlev - 1), ("one", False, None)]):
                 run_case(ctx, rep, spec2, f, vf, lim, model, path2, truth2, cli=(j == 2 and i % 4 == 1))
         if nlev >= 2 and i % 2 == 0:
             # the plotfile is rewritten at the same path with another refined region and integrated again in this process
@@ -311,7 +315,7 @@ def run(ctx, rep, model=True):
                     break
             spec2["data"] = {"mode": "pestle", "seed": ctx.rng.randrange(1 << 30)}
             shutil.rmtree(path); truth2 = plotgen.materialize(spec2, path)
-            run_case(ctx, rep, spec2, "density", False, None, model, path, truth2, previous=spec)
+            run_case(ctx, rep, spec2, spec2["fields"][0], False, None, model, path, truth2, previous=spec)
             run_case(ctx, rep, spec2, "one", False, nlev - 1, model, path, truth2, previous=spec)
         if len(rep.violations) >= 10:
             return
